@@ -6,6 +6,8 @@ import (
 	"bytes"
 	"context"
 	"fmt"
+	"io"
+	"net/http"
 	"os"
 	"path/filepath"
 	"sync"
@@ -22,6 +24,7 @@ import (
 	"github.com/superfly/litefs/verif/pager"
 	"github.com/superfly/litefs/verif/pbt"
 	"github.com/superfly/litefs/verif/ref"
+	"github.com/superfly/ltx"
 	"pgregory.net/rapid"
 )
 
@@ -545,7 +548,7 @@ func genHistPlan(t *rapid.T) HistPlan {
 	for i := 0; i < n; i++ {
 		tx := pager.WalTx{Tx: txs[i]}
 		tx.NoWrite = false
-		k := rapid.SampledFrom([]string{"write", "write", "write", "ckpt", "recover", "import", "halt-tx", "halt-tx", "primary-change", "restart-replica", "reader"}).Draw(t, "kind")
+		k := rapid.SampledFrom([]string{"write", "write", "write", "ckpt", "recover", "import", "halt-tx", "halt-tx", "primary-change", "restart-replica", "reader", "stray-tx"}).Draw(t, "kind")
 		p.Steps = append(p.Steps, HistStep{Kind: k, Tx: tx, N: rapid.IntRange(0, 3).Draw(t, "n")})
 	}
 	return p
@@ -634,6 +637,24 @@ func runHistPlan(c *pbt.Case, p HistPlan) {
 				other.CloseConns()
 			}
 			_ = lf.Close()
+		case "stray-tx":
+			// somebody posts a transaction file that extends the position without holding a
+			// halt lock: if it is applied at all, it is applied without any lock
+			primary.CloseConns()
+			pos := primary.Pos(dbn)
+			if img, ok := cl.Hist.Lookup(dbn, pos); ok && img.N() > 0 {
+				body, next := strayLTX(img, pos)
+				req, _ := http.NewRequest("POST", fmt.Sprintf("%s/tx?name=%s&lockID=%d", primary.URL, dbn, 1000+i), bytes.NewReader(body))
+				req.Header.Set("Litefs-Id", "00000000000BAD00")
+				if resp, err := http.DefaultClient.Do(req); err == nil {
+					_, _ = io.Copy(io.Discard, resp.Body)
+					resp.Body.Close()
+					if after := primary.Pos(dbn); after != pos {
+						_ = cl.Hist.Record(dbn, after, next)
+					}
+				}
+				c.Label("stray-tx")
+			}
 		case "primary-change":
 			if heldReader != nil {
 				_ = heldReader.Close()
@@ -703,6 +724,21 @@ func runHistPlan(c *pbt.Case, p HistPlan) {
 	if events > 0 {
 		c.NonTrivial()
 	}
+}
+
+// strayLTX builds a well-formed transaction file that extends pos exactly.
+func strayLTX(img *ref.Image, pos ref.Pos) ([]byte, *ref.Image) {
+	next := img.Clone()
+	hdr := append([]byte(nil), img.Page(1)...)
+	hdr[27]++
+	next.Set(1, hdr)
+	var buf bytes.Buffer
+	enc := ltx.NewEncoder(&buf)
+	_ = enc.EncodeHeader(ltx.Header{Version: 1, PageSize: img.PageSize, Commit: next.N(), MinTXID: ltx.TXID(pos.TXID + 1), MaxTXID: ltx.TXID(pos.TXID + 1), Timestamp: 1, PreApplyChecksum: ltx.Checksum(pos.Checksum), NodeID: 0xbad})
+	_ = enc.EncodePage(ltx.PageHeader{Pgno: 1}, hdr)
+	enc.SetPostApplyChecksum(ltx.Checksum(next.Checksum()))
+	_ = enc.Close()
+	return buf.Bytes(), next
 }
 
 var monitorProp = pbt.Prop[HistPlan]{ID: "C11", Name: "monitor", Gen: genHistPlan, Run: runHistPlan}
